@@ -127,19 +127,19 @@ def _match_seq(nodes, i, pos, st, cont):
     items, n = st.items, st.n
 
     if op is _sc.LITERAL:
-        if pos < n and _test(_lit(items[pos], av)):
+        if pos < n and _lit_test(items[pos], av):
             return nxt(pos + 1)
         return None
     if op is _sc.NOT_LITERAL:
-        if pos < n and not _test(_lit(items[pos], av)):
+        if pos < n and not _lit_test(items[pos], av):
             return nxt(pos + 1)
         return None
     if op is _sc.ANY:
-        if pos < n and not _test(_lit(items[pos], 10)):
+        if pos < n and not _lit_test(items[pos], 10):
             return nxt(pos + 1)
         return None
     if op is _sc.IN:
-        if pos < n and _test(_cond_in(items[pos], av, st.is_bytes)):
+        if pos < n and _in_test(items[pos], av, st.is_bytes):
             return nxt(pos + 1)
         return None
     if op is _sc.AT:
@@ -245,6 +245,70 @@ def _match_seq(nodes, i, pos, st, cont):
             return None
         return nxt(pos)
     raise Unsupported(f"regex op {op}")
+
+
+def _lit_test(c, a):
+    """element c == constant a, through the shared SInt (intervals, exclusions, refinement)"""
+    if _real_isinstance(c, _real_int):
+        return c == a
+    return V._real_bool(V._shared(c, None, None) == a)
+
+
+def _in_test(c, av, is_bytes):
+    """class membership test; the outcome refines the element's interval / exclusion set"""
+    if _real_isinstance(c, _real_int):
+        return _cond_in(c, av, is_bytes)
+    s = V._shared(c, None, None)
+    if _real_isinstance(s, _real_int):
+        return _cond_in(s, av, is_bytes)
+    neg = any(op is _sc.NEGATE for op, _ in av)
+    parts = [(op, a) for op, a in av if op is not _sc.NEGATE]
+    simple = all(op in (_sc.LITERAL, _sc.RANGE) for op, _ in parts)
+    if simple and s.lo is not None and s.hi is not None:
+        # decide by the abstract domain when possible
+        inside_all = True
+        outside_all = True
+        ranges = [(a, a) if op is _sc.LITERAL else a for op, a in parts]
+        for lo, hi in ranges:
+            if not (hi < s.lo or lo > s.hi):
+                # overlaps the hull
+                if lo == hi and s.excl and lo in s.excl:
+                    continue
+                outside_all = False
+        # value certainly in the class if one range covers the whole hull
+        inside_all = any(lo <= s.lo and s.hi <= hi for lo, hi in ranges)
+        if outside_all:
+            return neg
+        if inside_all:
+            return not neg
+    out = E().decide(_cond_in(c, av, is_bytes))
+    if simple:
+        member = out != neg  # is the value in the union of the listed ranges?
+        ranges = [(a, a) if op is _sc.LITERAL else a for op, a in parts]
+        if member:
+            lo = min(r[0] for r in ranges)
+            hi = max(r[1] for r in ranges)
+            if s.lo is None or lo > s.lo:
+                s.lo = lo
+            if s.hi is None or hi < s.hi:
+                s.hi = hi
+        else:
+            from .ints import exclude
+
+            changed = True
+            while changed:
+                changed = False
+                for lo, hi in ranges:
+                    if s.lo is not None and lo <= s.lo <= hi:
+                        s.lo = hi + 1
+                        changed = True
+                    if s.hi is not None and lo <= s.hi <= hi:
+                        s.hi = lo - 1
+                        changed = True
+            for lo, hi in ranges:
+                if lo == hi:
+                    exclude(s, lo)
+    return out
 
 
 def _lit(c, a):
